@@ -159,6 +159,27 @@ pub fn model_isi(m: &Model) -> Isi {
     }
 }
 
+/// IS_ISI as InSim.txt lays it out: Size Type ReqI Zero | UDPPort(2) Flags(2) | InSimVer Prefix Interval(2) | Admin[16] | IName[16].
+/// Generated names / passwords are caret-free ASCII, whose encoding is the bytes themselves, cut to 16 and NUL-padded.
+pub fn reference_isi_frame(m: &Model) -> Vec<u8> {
+    let i = model_isi(m);
+    let mut f = vec![if m.compressed { 11u8 } else { 44 }, 1, i.reqi.0, 0];
+    f.extend_from_slice(&i.udpport.to_le_bytes());
+    let known: u16 = FLAG_BITS.iter().fold(0, |a, (_, b)| a | *b);
+    f.extend_from_slice(&(m.flags & known).to_le_bytes());
+    f.push(9);
+    f.push(m.prefix.unwrap_or(0));
+    f.extend_from_slice(&(m.interval.unwrap_or(0) as u16).to_le_bytes());
+    for t in [&i.admin, &i.iname] {
+        assert!(t.is_ascii() && !t.contains('^'), "generator invariant: ASCII, caret-free");
+        let mut b = t.as_bytes().to_vec();
+        b.truncate(16);
+        b.resize(16, 0);
+        f.extend_from_slice(&b);
+    }
+    f
+}
+
 fn ops_json(ops: &[Op]) -> Value {
     Value::Array(ops.iter().map(|o| json!(format!("{o:?}"))).collect())
 }
@@ -407,7 +428,8 @@ impl Part for Connect {
             received = got;
         }
         let mode = if model.compressed { Mode::Compressed } else { Mode::Uncompressed };
-        let want = Codec::new(mode.clone()).encode(&Packet::Isi(model_isi(&model))).map_err(|e| Fail::new("harness:encode", e.to_string()))?.to_vec();
+        // the expected frame is laid out here from the documented IS_ISI structure, not by the library's encoder
+        let want = reference_isi_frame(&model);
         let what = if c.udp { "datagrams" } else { "bytes" };
         ensure!(
             received.len() == 1 && received[0] == want,
@@ -475,7 +497,7 @@ pub fn run(run: &mut Run) {
         tcp_nodelay are applied to the real builder and to a plain struct model (later calls override earlier ones); isi() must not panic \
         and must render like the model's ISI (defaults: name insim.rs, empty password, NUL prefix, interval 0, request id 0, UDP port = \
         configured local port or 0). All 1024 flag states via the individual setters (complete). Connect: a loopback TCP listener / UDP \
-        peer receives the handshake of connect_blocking and connect_async: exactly one ISI frame equal to Codec(mode).encode(model ISI); relay() calls earlier in the sequence must not \
+        peer receives the handshake of connect_blocking and connect_async: exactly one ISI frame equal to the 44-byte image laid out from the documented structure and the model of the configuration (not by the library's encoder); relay() calls earlier in the sequence must not \
         disturb it, and an interval beyond the 16-bit field must be refused (nothing sent), never sent as another value. \
         Non-trivial = at least two builder calls (model part), every connect case."
         .into();
